@@ -351,7 +351,7 @@ pub mod fasta {
                     lemma_lfs_skip(bb, self.buf_pos.start as int, sp0 + at0, bb.len() as int);
                 }
             }
-//@at depth=2 kw=let nth=0 expect="let \w+ = self\.search_pos \+ "
+//@at depth=2 kw=let nth=0 expect="let \w+ = "
             proof {
                 // pos (relative) is the first LF of the haystack at or after at0
                 let bb = self.b();
@@ -361,7 +361,7 @@ pub mod fasta {
                 lemma_lfs_skip(bb, self.buf_pos.start as int, sp0 + at0, sp0 + pos);
                 lemma_lfs_bounds(bb, self.buf_pos.start as int, sp0 + pos);
             }
-//@at depth=2 kw=if nth=1 expect="if self\.get_buf\(\)\["
+//@at depth=2 kw=if nth=1 expect="if "
             proof {
                 let bb = self.b();
                 let ghost_sp = old(self).search_pos as int;
@@ -587,7 +587,7 @@ pub mod fasta {
                 lemma_nl_bounds(bb2, 0);
                 if bb2.len() > 0 { assert(bb2[0] != 10u8); }
             }
-//@at tail expect="Ok\(None\)"
+//@at tail expect="(return )?Ok\(None\)"
         proof {
             // the last refill read nothing: the (blank, unterminated) leftover is the rest of the input
             if old(self).fresh() {
@@ -803,7 +803,7 @@ pub mod fasta {
                 assert(lfs(self.b(), self.buf_pos.start as int, self.buf_pos.start as int) =~= Seq::<int>::empty());
             }
         }
-//@at tail expect="Some\(Ok\("
+//@at tail expect="(return )?Some\(Ok\("
         proof {
             let (ff, a, bb, st, e) = (self.f(), self.base(), self.b(), self.buf_pos.start as int, self.search_pos as int);
             lemma_rec_lift(ff, a, bb, st, spv(self.buf_pos.seq_pos@), e);
@@ -839,7 +839,7 @@ pub mod fasta {
                 assert(lfs(self.b(), self.buf_pos.start as int, self.buf_pos.start as int) =~= Seq::<int>::empty());
                 assert(spv(self.buf_pos.seq_pos@) =~= Seq::<int>::empty());
             }
-//@at tail expect="Ok\(\(\)\)"
+//@at tail expect="(return )?Ok\(\(\)\)"
         proof {
             assert(lfs(self.b(), 0, 0) =~= Seq::<int>::empty());
             assert(spv(self.buf_pos.seq_pos@) =~= Seq::<int>::empty());
@@ -1884,7 +1884,7 @@ trait RecordD {
 //---pre
             let ghost rest0 = chunks_rest(&vx_ch);
             let ghost wr0 = writer.written();
-//@at tail expect="Ok\(\(\)\)"
+//@at tail expect="(return )?Ok\(\(\)\)"
         proof { }
 //@end
 
